@@ -11,6 +11,8 @@ Open Scope bool_scope.
 (* [DiskWriterFs.is_err], stated here on the result type of Model/Fs.v (convertible) *)
 Definition rerr (r : result) : bool := match r with RErr _ => true | _ => false end.
 
+Definition stat_ino_of (r : result) : option N := match r with RStat i _ => Some i | _ => None end.
+
 (* ---------------- path strings ---------------- *)
 Definition relpath (p : bytes) (cs : list bytes) : Prop :=
   p <> [] /\ is_abs p = false /\ ends_with_sep p = false /\ pcs p = cs /\ cs <> [] /\ Forall okname cs.
@@ -470,6 +472,35 @@ Proof using Hc Hrel Hsafe.
     - rewrite E in H. discriminate. }
   unfold sys_lstat, resolve_ino in H. rewrite Hres in H. simpl in H.
   unfold is_link in El. destruct (get f i) as [[k m]|]; [|discriminate]. discriminate.
+Qed.
+
+(* lstat said ENOENT although the entry is there: the inode record is missing *)
+Lemma lstat_enoent_dangling : snd (sys_lstat c f p) = RErr ENOENT ->
+  forall dd i, rwalk f D pre = Some dd -> blookup n (ents f dd) = Some i -> get f i = None.
+Proof using Hc Hrel Hsafe.
+  clear_others. intros H j i Hj Eb.
+  assert (Hdj : is_dir f j = true).
+  { unfold is_dir. unfold ents in Eb. destruct (dir_of f j) as [[q es]|]; auto. discriminate. }
+  assert (Hres : resolve c f p false = inl {| l_dir := j; l_name := n; l_ino := Some i |}).
+  { destruct Hrel as (Hp & Habs & Hsep & Hpcs & Hne & Hok).
+    apply okname_forall in Hok. destruct Hok as [Hn _].
+    unfold resolve in *. destruct p as [|a p']; [congruence|].
+    unfold sys_lstat, resolve_ino, resolve in H.
+    destruct (has_nul (a :: p')); [discriminate|].
+    rewrite Hsep, Habs, Hpcs, Hc, orb_false_r in *. revert H. generalize rfuel. intros fuel H.
+    destruct (walk_rres fuel f (c_root c) D (pre ++ [n]) false 0 Hn) as [E|E].
+    - right. split; auto. rewrite removelast_snoc. exact Hsafe.
+    - rewrite E. rewrite (rres_complete f pre j n D Hj Hdj), Eb. reflexivity.
+    - rewrite E in H. discriminate. }
+  unfold sys_lstat, resolve_ino in H. rewrite Hres in H. simpl in H.
+  destruct (get f i) as [nd|]; [discriminate|reflexivity].
+Qed.
+
+(* lstat of a path that resolves *)
+Lemma lstat_of_resolve dd i : resolve c f p false = inl {| l_dir := dd; l_name := n; l_ino := Some i |} ->
+  stat_ino_of (snd (sys_lstat c f p)) = (match get f i with Some _ => Some i | None => None end).
+Proof using.
+  intros H. unfold sys_lstat, resolve_ino. rewrite H. simpl. destruct (get f i); reflexivity.
 Qed.
 
 (* ---- creating calls ---- *)
